@@ -76,7 +76,7 @@ def run(ctx):
     quick = ctx.tier == "quick"
     ctx.rule = ("streams of 0-8 messages (payload lengths boundary-biased up to 4096), each fed to asyncio.StreamReader under several "
                 "chunkings: whole, whole with the end of stream fed before the reader runs, 1-byte chunks, every single cut, random cuts; all cut PAIRS for streams <= 40 bytes; (thorough) every "
-                "cut SET of a 16/17-byte stream; truncation at every position; one corrupted header field; streams whose messages share the last header word with a later length field below 8; a corrupted header whose payload is cut short; a case = (stream, chunking), "
+                "cut SET of a 16/17-byte stream; truncation at every position; one corrupted header field; streams whose messages share the last header word with a later length field below 8; single-bit flips of protocol version / message type / return code; a corrupted header whose payload is cut short; a case = (stream, chunking), "
                 "non-trivial when distinct; each stream result is compared with datagram decoding of the concatenation (the property) and with the model")
     ctx.assumptions = ["asyncio.StreamReader.readexactly is chunking-independent (exercised, not modelled): the model reads from the concatenated stream"]
     loop = asyncio.new_event_loop()
@@ -131,6 +131,15 @@ def run(ctx):
         else:
             data[off + 12] = r2.choice([0, 2])
         streams.append((bytes(data), "same-tail-corrupted"))
+    # every single-bit flip of the last header word (protocol version, interface version, message type, return code) of
+    # one message of a stream: whatever the datagram decoder does with it, the stream reader does the same
+    for k in range(40 if quick else 800):
+        ms = [gen.message(r2, maxlen=r2.choice([0, 1, 9])) for _ in range(r2.randint(1, 3))]
+        data = bytearray(b"".join(bytes(m.build()) for m in ms))
+        j = r2.randrange(len(ms))
+        off = sum(len(m.payload) + 16 for m in ms[:j])
+        data[off + r2.choice([12, 14, 14, 14, 15, 15])] ^= 1 << r2.randrange(8)
+        streams.append((bytes(data), "bit-flipped"))
     # short streams for the exhaustive cut sets
     tiny = gen.message(r, maxlen=0)
     tiny = H.SOMEIPHeader(tiny.service_id, tiny.method_id, tiny.client_id, tiny.session_id, tiny.interface_version, tiny.message_type, 1, tiny.return_code, b"")
